@@ -149,7 +149,10 @@ async fn handler_body(handler_method: String, did: String) -> Result<CoreDocumen
   }
 }
 
-const METHODS: [&str; 4] = ["foo", "bar", "baz", "qux"];
+// method names that are prefixes of one another: dispatch must be by the exact method name
+const METHODS: [&str; 4] = ["foo", "foobar", "ba", "bar"];
+// method-specific ids that differ only in case, or carry an extra segment: distinct DIDs must stay distinct
+const IDS: [&str; 4] = ["a1", "A1", "b2", "x:a1"];
 
 /// What the oracle expects from resolving one DID.
 #[derive(Clone, Debug, PartialEq)]
@@ -478,15 +481,17 @@ impl Engine for ResEngine {
 
     // ---- configuration (swarm) ----
     let send_sync = ctx::choose(2) == 0;
-    let n_methods = 1 + ctx::choose(4);
-    let methods: Vec<&str> = METHODS[..n_methods].to_vec();
+    // any non-empty subset of the method names gets a handler (so that an attached name may be a prefix of an
+    // unattached one and vice versa)
+    let mask = 1 + ctx::choose(15);
+    let methods: Vec<&str> = METHODS.iter().enumerate().filter(|(i, _)| mask >> i & 1 == 1).map(|(_, m)| *m).collect();
     let with_iota = ctx::choose(3) == 1;
     let with_jwk = ctx::choose(3) == 1;
 
     // ---- DID universe ----
     let mut universe: Vec<(String, Expect)> = Vec::new();
     for m in METHODS.iter() {
-      for id in ["a1", "b2", "c3"] {
+      for id in IDS {
         let did = format!("did:{m}:{id}");
         if methods.contains(m) {
           universe.push((did, Expect::Doc(0)));
